@@ -187,7 +187,7 @@ def count(*args):
     #   COUNT-function-a59cd7fc-b623-4d93-87a4-d23bf411294c
 
     return sum(1 for x in flatten(args)
-               if isinstance(x, (int, float)) and not isinstance(x, bool))
+               if isinstance(x, (int, float, np.integer)) and not isinstance(x, bool))
 
 
 # def counta(value):
